@@ -24,6 +24,7 @@ def main():
     ap.add_argument("--breaks", required=True)
     ap.add_argument("--needs", required=True)
     ap.add_argument("--property", default=None)
+    ap.add_argument("--origin-extra", default="")
     a = ap.parse_args()
     txt = open(a.report).read().rsplit("done", 1)[0]
     rep = json.loads(txt)
@@ -53,7 +54,7 @@ def main():
         "property": a.property or a.id[:3],
         "breaks": a.breaks,
         "needs_to_manifest": a.needs,
-        "origin": "fresh sub-agent given only the property text and a scratch worktree of /repo at %s; nothing from /verif" % rep["base_commit"],
+        "origin": "fresh sub-agent given only the property text and a scratch worktree of /repo at %s; nothing from /verif" % rep["base_commit"] + ((" " + a.origin_extra) if a.origin_extra else ""),
         "confirmed_by": {
             "tool": "tools/confirm_seed.py (two scratch worktrees under /tmp, removed afterwards)",
             "base_commit": rep["base_commit"],
